@@ -290,7 +290,7 @@ def run_property(pid, tier, seed, only=None, keep=False, nodiff=False):
         pool = Pool(NCPU)
         def submit(h, jobi, workl, mp, wall):
             task = (pid, h.name, jobi, build.ir(h.wrapper, h.defs), workl, mp, wall, known_keys)
-            pool.submit((h, jobi), task, wall * 3 + 60)
+            pool.submit((h, jobi), task, wall * 3 + 600)
         for h in hs:
             for jobi in range(len(h.jobs)):
                 submit(h, jobi, None, 30, 5)
